@@ -2,6 +2,7 @@ package props
 
 import (
 	"net/url"
+	"sort"
 	"strings"
 	"testing"
 
@@ -165,7 +166,12 @@ func c13Prop(c *sim.Case) {
 		c.Violation("param-mismatch:scope"+sigSfx, "Location %q: scope = %q", loc, sc)
 	}
 	gotScopes := strings.Split(sc[0], " ")
-	if strings.Join(gotScopes, "\x00") != strings.Join(w.Cfg.GetScopes(), "\x00") {
+	// the scope parameter is a set of space-delimited tokens: the configured ones, each as often as configured, in
+	// whatever order
+	gotSorted, wantSorted := append([]string{}, gotScopes...), append([]string{}, w.Cfg.GetScopes()...)
+	sort.Strings(gotSorted)
+	sort.Strings(wantSorted)
+	if strings.Join(gotSorted, "\x00") != strings.Join(wantSorted, "\x00") {
 		c.Violation("param-mismatch:scope"+sigSfx, "scope decodes to %q, configured (resolved) scopes are %q", gotScopes, w.Cfg.GetScopes())
 	}
 	hasOpenID := false
